@@ -926,6 +926,8 @@ fn gen_req(rng: &mut Rng, app: &AppT) -> Rq {
             s
         }
     };
+    // ASCII only: no escape may decode to a byte >= 0x80
+    let path = if ref_requote(&path).iter().all(|b| *b < 128) { path } else { path.replace('%', "%25") };
     let mut rq = Rq {
         m: if rng.chance(1, 2) { 0 } else { rng.below(4) as u8 },
         host: match rng.below(4) {
